@@ -37,6 +37,7 @@ def run(tier):
     _a_propagate(chk)
     c03._directed_semantics(_Relabel(chk))
     c03._direction_sites(_Relabel(chk))
+    c03._directed_memo(_Relabel(chk))
     _c_descending(chk)
     _d_plain_drivers(chk, tier)
     return chk
@@ -62,7 +63,7 @@ INTEGRATORS = [("_FixedStepRK", RK, ("_integrate_fixed_rk", "_integrate_fixed_rk
                ("_ExtendedSymplectic", SY, ("_integrate_symplectic",), "agnostic")]
 
 
-def _run_integrate(cls_name, modname, drivers, tv, rep, fwd=None, ham=False, event=False):
+def _run_integrate(cls_name, modname, drivers, tv, rep, fwd=None, ham=False, event=False, hit=False):
     cap = {"calls": []}
 
     def stub(name):
@@ -70,6 +71,8 @@ def _run_integrate(cls_name, modname, drivers, tv, rep, fwd=None, ham=False, eve
             cap["calls"].append((name, kwargs, args))
             n = 3
             if "until_event" in name:
+                if hit:
+                    return (True, sp.Symbol("T_HIT", real=True), tagvec("YH"), np.vstack([tagvec("L0"), tagvec("YH")]))
                 return (False, sp.Symbol("T_END"), tagvec("YL"), np.vstack([tagvec("L0"), tagvec("YL")]))
             st = np.vstack([tagvec(f"S{i}") for i in range(n)])
             if name == "_integrate_symplectic":
@@ -120,7 +123,30 @@ def _a_integrate_times(chk):
                     grid = list(to_obj_array(kw.get("t_values"))) if kw.get("t_values") is not None else None
                     chk.check(grid == [fwd * t for t in T], "C10.a", tag + "[integration grid]",
                               f"symplectic integration grid is {grid}, expected direction*t_vals = {[fwd * t for t in T]}", sample="t_values = fwd * t_vals")
-    chk.count("functions partially evaluated", 9)
+                # event branch: the reported event time is in the frame of the requested (unsigned) grid: if the kernel was
+                # handed sigma*t_vals it reports sigma*t, so integrate() must return sigma*T_HIT; _propagate_dynsys signs once
+                outcome, sol, cap = _run_integrate(cls_name, modname, drivers, tv, rep, fwd=fwd, ham=ham, event=True, hit=True)
+                if outcome != "return":
+                    chk.fail("C10.a", tag + "[event time]", f"integrate raised on the event branch: {sol}")
+                    continue
+                ev = [c for c in cap["calls"] if "until_event" in c[0]]
+                grid = None
+                if ev:
+                    kw, a = ev[0][1], ev[0][2]
+                    g = kw.get("t_values", kw.get("t_eval", kw.get("t_vals")))
+                    if g is None:
+                        g = next((x for x in a if isinstance(x, np.ndarray) and x.shape == (3,) and any(S(v).has(*T) for v in x)), None)
+                    grid = list(to_obj_array(g)) if g is not None else None
+                    if grid is None and kw.get("t0") is not None and kw.get("tmax") is not None:
+                        grid = [S(kw["t0"]), S(kw["tmax"])]
+                sigma = 1 if grid in (T, [T[0], T[-1]]) else (-1 if grid in ([-t for t in T], [-T[0], -T[-1]]) else None)
+                times = list(to_obj_array(sol.attrs["times"]))
+                ok = sigma is not None and len(times) == 2 and times[0] == T[0] and sp.expand(S(times[-1]) - sigma * sp.Symbol("T_HIT", real=True)) == 0
+                chk.check(ok, "C10.a", tag + "[event time]",
+                          f"on an event hit integrate() returns times {times}; the kernel integrated the grid {grid} and reported T_HIT in that frame, so the unsigned "
+                          f"event time is {None if sigma is None else sigma * sp.Symbol('T_HIT')} (the caller applies the direction sign once)",
+                          sample=f"event hit: times = [t0, sigma*T_HIT], sigma={sigma}")
+    chk.count("functions partially evaluated", 18)
 
 
 def _a_propagate(chk):
